@@ -87,7 +87,7 @@ func init() {
 		"Decides: the AddActivity type switch covers every activity type the process can store, or rejects it before linking; the node copy is appended only after link filled its incomings; link stores both ends (R32); generated ids do not come from a clock-only source (R34).",
 		"geometry (overlap, waypoints), executability.")
 	prop("C20", "Generated identifiers never collide",
-		[]string{"R23", "R33", "R34", "R68", "R70"}, nil,
+		[]string{"R23", "R33", "R34", "R68", "R70", "R72"}, nil,
 		"Decides: the fallback counter is only accessed atomically (R23); every id stored into flow/process/trace id fields originates from IGenerator.New (or the single pre-generated fork id) and the rolling NewWithTime is never used (R33); id sources are not a pure function of the clock (R34).",
 		"sno's own guarantees, time regressions, snapshot histories.")
 }
